@@ -10,4 +10,4 @@ for P in "$@"; do
 done
 git -C /repo checkout -- . && git -C /repo status --short
 # evidence files must come from clean-tree runs: restore the committed ones
-git -C /verif checkout -- evidence 2>/dev/null
+git -C /verif checkout -- evidence coq/Gen 2>/dev/null
